@@ -21,6 +21,7 @@ import (
 	"github.com/MichaelMure/git-bug/entities/identity"
 	"github.com/MichaelMure/git-bug/entity"
 	"github.com/MichaelMure/git-bug/repository"
+	"github.com/MichaelMure/git-bug/util/text"
 
 	"verif/harness/internal/gitlabsim"
 	"verif/harness/internal/ondisk"
@@ -87,6 +88,15 @@ func genC16(t *rapid.T) c16Case {
 			})
 		}
 		c.Rounds = append(c.Rounds, round)
+	}
+	if rapid.IntRange(0, 2).Draw(t, "labelComesAndGoes") == 0 {
+		// an issue gets its only label in the first round and loses it in the last one: afterwards the tracker lists
+		// it without any label, although label events remain to be imported
+		k := rapid.IntRange(0, len(c.Rounds[0].NewIssues)-1).Draw(t, "labelIssue")
+		l := rapid.IntRange(0, 3).Draw(t, "label")
+		c.Rounds[0].Events = append(c.Rounds[0].Events, c16Event{Issue: k, Kind: "addlabel", User: 1, Note: l})
+		last := len(c.Rounds) - 1
+		c.Rounds[last].Events = append(c.Rounds[last].Events, c16Event{Issue: k, Kind: "removelabel", User: 2, Note: l})
 	}
 	if rapid.IntRange(0, 2).Draw(t, "descEveryRound") == 0 {
 		// the description of one issue is edited again in every round: each import meets the older
@@ -177,7 +187,7 @@ func (t *c16Tracker) apply(r c16Round, initial bool, ago time.Duration) {
 				return r
 			}, e.Text))
 			if len(newTitle) > 40 {
-				newTitle = newTitle[:40]
+				newTitle = strings.TrimSpace(strings.ToValidUTF8(newTitle[:40], "")) // GitLab stores titles trimmed
 			}
 			// a title that is blank by git-bug's own rule (only spaces and non-graphic runes, e.g. a lone zero-width
 			// space) cannot be represented: the importer reports an error for that issue on every run (noted in
@@ -376,6 +386,83 @@ func (r *c16Repo) compiled() (map[string][]string, error) {
 	return out, nil
 }
 
+// expected: what the tracker itself says every issue looks like now, in the format of compiled(). This is the
+// reference that does not come from git-bug: title, state, label set (label events applied in order), the
+// description and every user note in creation order. Text is normalised with git-bug's own text.Cleanup
+// functions (trusted: what "the same text" means after an import).
+func (t *c16Tracker) expected() map[string][]string {
+	out := map[string][]string{}
+	for _, is := range t.srv.Issues {
+		status := 1
+		if is.State == "closed" {
+			status = 2
+		}
+		set := map[string]bool{}
+		for _, e := range is.Labels {
+			if e.Action == "add" {
+				set[e.Label] = true
+			} else {
+				delete(set, e.Label)
+			}
+		}
+		labels := make([]bug.Label, 0, len(set))
+		for l := range set {
+			labels = append(labels, bug.Label(l))
+		}
+		sort.Slice(labels, func(i, j int) bool { return labels[i] < labels[j] })
+		lines := []string{fmt.Sprintf("title=%q status=%d labels=%q", text.CleanupOneLine(is.Title), status, labels)}
+		msgs := []string{text.Cleanup(is.Description)}
+		notes := append([]gitlabsim.Note(nil), is.Notes...)
+		sort.SliceStable(notes, func(i, j int) bool { return notes[i].CreatedAt.Before(notes[j].CreatedAt) })
+		for _, n := range notes {
+			if !n.System {
+				msgs = append(msgs, text.Cleanup(n.Body))
+			}
+		}
+		for i, msg := range msgs {
+			if len(msg) > 60 {
+				msg = fmt.Sprintf("%s…(%d bytes, sha %s)", msg[:40], len(msg), ondisk.Sha([]byte(msg))[:8])
+			}
+			lines = append(lines, fmt.Sprintf("comment #%d %q", i, msg))
+		}
+		out[fmt.Sprint(is.IID)] = lines
+	}
+	return out
+}
+
+// diffExpected compares the tracker's own view with the imported bugs: "aspect: detail" or "".
+func diffExpected(want, got map[string][]string) string {
+	var ks []string
+	for k := range want {
+		ks = append(ks, k)
+	}
+	sort.Strings(ks)
+	for _, k := range ks {
+		w, g := want[k], got[k]
+		if g == nil {
+			return fmt.Sprintf("issue-not-imported: issue %s of the tracker has no bug", k)
+		}
+		if w[0] != g[0] {
+			aspect := "title-status-or-labels"
+			return fmt.Sprintf("%s: issue %s\ntracker  %s\nimported %s", aspect, k, w[0], g[0])
+		}
+		if len(w) != len(g) {
+			return fmt.Sprintf("comment-count: issue %s: the tracker has the description and %d notes, the bug has %d comments\ntracker  %v\nimported %v", k, len(w)-2, len(g)-1, w[1:], g[1:])
+		}
+		for i := 1; i < len(w); i++ {
+			if w[i] != g[i] {
+				return fmt.Sprintf("comment-text: issue %s\ntracker  %s\nimported %s", k, w[i], g[i])
+			}
+		}
+	}
+	for k := range got {
+		if want[k] == nil {
+			return fmt.Sprintf("bug-without-issue: a bug claims gitlab issue %q which the tracker does not have", k)
+		}
+	}
+	return ""
+}
+
 func diffNormalized(want, got map[string][]string) string {
 	keys := map[string]bool{}
 	for k := range want {
@@ -509,6 +596,12 @@ func runC16(tb report.TB, rep *report.Reporter, c c16Case) {
 	fresh.close()
 	if err != nil {
 		if fail("imported-bug-invalid/"+Normalize(err.Error()), err.Error()) {
+			return
+		}
+	}
+	// the import agrees with the tracker itself (a reference that does not come from git-bug)
+	if d := diffExpected(tr.expected(), scratchState); d != "" {
+		if fail("import-differs-from-the-tracker/"+d[:strings.Index(d, ":")], d) {
 			return
 		}
 	}
